@@ -1,6 +1,7 @@
 package main
 
 import (
+	"sync/atomic"
 	"encoding/binary"
 	"fmt"
 	"io"
@@ -100,6 +101,8 @@ type reqRec struct {
 }
 
 type simKDC struct {
+	substituteTicket *messages.Ticket // the ticket put into every TGS reply instead of the one made for it
+	down int32 // 1 during an outage (set with atomic operations)
 	mu       sync.Mutex
 	realms   map[string]map[string]*simPrincipal
 	policy   simPolicy
@@ -229,6 +232,14 @@ func otherName(pn types.PrincipalName) types.PrincipalName {
 	return types.PrincipalName{NameType: pn.NameType, NameString: n}
 }
 
+// regroupedName is another name that prints like pn: its components joined into one
+func regroupedName(pn types.PrincipalName) types.PrincipalName {
+	if len(pn.NameString) < 2 {
+		return otherName(pn)
+	}
+	return types.PrincipalName{NameType: pn.NameType, NameString: []string{strings.Join(pn.NameString, "/")}}
+}
+
 // applyPerturbation changes one field of the reply as the C09 case says; reqAddrs are the addresses of the request
 func (k *simKDC) applyPerturbation(p *perturbation, rp *replyParts, reqAddrs []types.HostAddress) {
 	now := time.Now().UTC().Truncate(time.Second)
@@ -241,11 +252,19 @@ func (k *simKDC) applyPerturbation(p *perturbation, rp *replyParts, reqAddrs []t
 			rp.enc.Nonce--
 		}
 	case "cname":
-		rp.cname = otherName(rp.cname)
+		if p.Value == "regrouped" {
+			rp.cname = regroupedName(rp.cname)
+		} else {
+			rp.cname = otherName(rp.cname)
+		}
 	case "crealm":
 		rp.crealm = rp.crealm + ".OTHER"
 	case "sname":
-		rp.enc.SName = otherName(rp.enc.SName)
+		if p.Value == "regrouped" {
+			rp.enc.SName = regroupedName(rp.enc.SName)
+		} else {
+			rp.enc.SName = otherName(rp.enc.SName)
+		}
 	case "srealm":
 		rp.enc.SRealm = rp.enc.SRealm + ".OTHER"
 	case "tktRealm":
@@ -280,6 +299,15 @@ func (k *simKDC) applyPerturbation(p *perturbation, rp *replyParts, reqAddrs []t
 		}
 		if p.Value == "startBeyond" || p.Value == "bothBeyond" {
 			rp.enc.StartTime = now.Add(k.skew + 60*time.Second)
+		}
+		if p.Value == "startAbsent" || p.Value == "startAbsentAuthBeyond" {
+			rp.enc.StartTime = time.Time{} // OPTIONAL: not encoded
+		}
+		if p.Value == "startAbsentAuthBeyond" {
+			rp.enc.AuthTime = now.Add(-k.skew - 60*time.Second)
+		}
+		if p.Value == "authZero" {
+			rp.enc.AuthTime = time.Time{}
 		}
 	case "usage":
 		if p.Value == "other" {
@@ -391,6 +419,9 @@ func (k *simKDC) issue(isAS bool, realm string, cname types.PrincipalName, creal
 	tkt := messages.Ticket{TktVNO: 5, Realm: ticketRealm, SName: sname, EncPart: ed}
 	enc := messages.EncKDCRepPart{Key: sess, LastReqs: []messages.LastReq{{LRType: 0, LRValue: now}}, Nonce: body.Nonce, Flags: fl, AuthTime: authTime,
 		StartTime: etp.StartTime, EndTime: end, RenewTill: renew, SRealm: ticketRealm, SName: sname, CAddr: caddr}
+	if !isAS && k.substituteTicket != nil {
+		tkt = *k.substituteTicket // an attacker's KDC hands out a ticket it got elsewhere (BasicAuth)
+	}
 	rp := &replyParts{isAS: isAS, crealm: crealm, cname: cname, tkt: tkt, enc: enc, replyKey: replyKey}
 	if isAS {
 		rp.usage, rp.encTag = keyusage.AS_REP_ENCPART, 25
@@ -735,6 +766,9 @@ func (k *simKDC) listen() (string, error) {
 				return
 			}
 			req := append([]byte{}, buf[:n]...)
+			if atomic.LoadInt32(&k.down) != 0 {
+				continue
+			}
 			go func() {
 				if r := k.handle(req, "udp"); r != nil {
 					u.WriteTo(r, a)
@@ -750,6 +784,9 @@ func (k *simKDC) listen() (string, error) {
 			}
 			go func() {
 				defer c.Close()
+				if atomic.LoadInt32(&k.down) != 0 {
+					return // an outage: connections are dropped at once
+				}
 				c.SetDeadline(time.Now().Add(10 * time.Second))
 				h := make([]byte, 4)
 				if _, err := io.ReadFull(c, h); err != nil {
